@@ -69,6 +69,46 @@ Proof. intros W. rewrite cup_closed, a_home by (apply AWF_abs; exact W). reflexi
 Lemma nmem_scnm_nunion l m : nmem DECSCNM l = false -> nmem DECSCNM (nunion l m) = nmem DECSCNM m.
 Proof. intros H. rewrite nmem_nunion, H. reflexivity. Qed.
 
+(* closed forms of restore_cursor on the model (Leibniz) *)
+Definition pop_modes (sp : savepoint) (m : list N) : list N :=
+  nunion ((if sp_origin sp then [DECOM] else []) ++ (if sp_wrap sp then [DECAWM] else [])) m.
+Definition vclamp_y (s : screen) (y : N) : N :=
+  match margins s with Some (t, b) => N.min (N.max t y) b | None => N.min (N.max 0 y) (lines s - 1) end.
+Lemma bounds_closed s u :
+  ensure_vbounds (ensure_hbounds s) u =
+  set_cur s (mkCursor (N.min (cx s) (columns s - 1))
+                      (match margins s with
+                       | Some (t, b) => if u || has_mode s DECOM then N.min (N.max t (cy s)) b else N.min (N.max 0 (cy s)) (lines s - 1)
+                       | None => N.min (N.max 0 (cy s)) (lines s - 1) end)
+                      (cu_attr (cur s)) (cu_hidden (cur s))).
+Proof.
+  destruct s as [sps c l di ma bu mo ti ic cs g0' g1' ts [x y at_ hd] sc].
+  unfold ensure_vbounds, ensure_hbounds, set_y, set_x, set_cur, cx, cy, has_mode.
+  cbn [margins cur cu_x cu_y cu_attr cu_hidden columns lines mode].
+  destruct ma as [[t b]|]; [destruct (u || nmem DECOM mo)|]; f_equal; f_equal; lia.
+Qed.
+Lemma set_cur_twice s a b : set_cur (set_cur s a) b = set_cur s b. Proof. reflexivity. Qed.
+Lemma restore_pop_closed s sp rest : savepoints s = sp :: rest ->
+  restore_cursor s =
+  set_cur (set_mode_f (set_charset (set_g1 (set_g0 (set_savepoints s rest) (sp_g0 sp)) (sp_g1 sp)) (sp_charset sp)) (pop_modes sp (mode s)))
+          (mkCursor (N.min (cu_x (sp_cursor sp)) (columns s - 1)) (vclamp_y s (cu_y (sp_cursor sp)))
+                    (cu_attr (sp_cursor sp)) (cu_hidden (sp_cursor sp))).
+Proof.
+  intros ES. unfold restore_cursor. rewrite ES.
+  set (s2 := set_charset (set_g1 (set_g0 (set_savepoints s rest) (sp_g0 sp)) (sp_g1 sp)) (sp_charset sp)).
+  assert (F : exists cu,
+     (if sp_wrap sp then sm_post (sm_pre (if sp_origin sp then sm_post (sm_pre s2 [DECOM]) [DECOM] else s2) [DECAWM]) [DECAWM]
+      else (if sp_origin sp then sm_post (sm_pre s2 [DECOM]) [DECOM] else s2))
+     = set_cur (set_mode_f s2 (pop_modes sp (mode s))) cu).
+  { unfold pop_modes. destruct (sp_origin sp).
+    - change (sm_post (sm_pre s2 [DECOM]) [DECOM]) with (cursor_position (set_mode_f s2 (nunion [DECOM] (mode s2))) None None).
+      destruct (cup_frame (set_mode_f s2 (nunion [DECOM] (mode s2))) None None) as [cu E]. rewrite E. exists cu.
+      destruct (sp_wrap sp); reflexivity.
+    - exists (cur s2). destruct (sp_wrap sp); reflexivity. }
+  destruct F as [cu4 F]. rewrite F. clear F.
+  rewrite bounds_closed, !set_cur_twice. reflexivity.
+Qed.
+
 Lemma ref_restore s : WF s -> Aeq (abs (step s ORestore)) (astep (abs s) ORestore).
 Proof.
   intros W. cbn [step astep]. unfold restore_cursor, a_restore. cbn [abs a_sp].
@@ -106,51 +146,23 @@ Proof.
     + intros x. cbn [abs a_mode a_xy a_with_cur a_with_mode mode set_cur s2 s1 set_mode_f].
       rewrite nmem_ndiff, nmem_nrem. cbn. rewrite orb_false_r. apply andb_comm.
   - (* pop *)
-    assert (P1 : forall s', sm_pre s' [DECOM] = set_mode_f s' (nunion [DECOM] (mode s'))) by reflexivity.
-    assert (P2 : forall s', sm_post s' [DECOM] = cursor_position s' None None) by reflexivity.
-    assert (P3 : forall s', sm_pre s' [DECAWM] = set_mode_f s' (nunion [DECAWM] (mode s'))) by reflexivity.
-    assert (P4 : forall s', sm_post s' [DECAWM] = s') by reflexivity.
-    rewrite !P1, !P2, !P3, !P4.
-    set (s2 := set_charset (set_g1 (set_g0 (set_savepoints s rest) (sp_g0 sp)) (sp_g1 sp)) (sp_charset sp)).
-    set (m4 := nunion ((if sp_origin sp then [DECOM] else []) ++ (if sp_wrap sp then [DECAWM] else [])) (mode s)).
-    (* the state just before the saved cursor is put back: only savepoints, charsets and mode differ from s *)
-    assert (F : exists cu, (if sp_wrap sp
-                 then set_mode_f (if sp_origin sp then cursor_position (set_mode_f s2 (nunion [DECOM] (mode s2))) None None else s2)
-                        (nunion [DECAWM] (mode (if sp_origin sp then cursor_position (set_mode_f s2 (nunion [DECOM] (mode s2))) None None else s2)))
-                 else (if sp_origin sp then cursor_position (set_mode_f s2 (nunion [DECOM] (mode s2))) None None else s2))
-              = set_cur (set_mode_f s2 m4) cu).
-    { unfold m4. destruct (sp_origin sp).
-      - destruct (cup_frame (set_mode_f s2 (nunion [DECOM] (mode s2))) None None) as [cu E]. rewrite E. exists cu.
-        destruct (sp_wrap sp); reflexivity.
-      - exists (cur s). destruct (sp_wrap sp); destruct s; reflexivity. }
-    destruct F as [cu4 F]. rewrite F. clear F.
+    change (match savepoints s with [] => _ | sp0 :: rest0 => _ end) with (restore_cursor s) || idtac.
+    assert (R : restore_cursor s = _) by (apply (restore_pop_closed s sp rest ES)).
+    unfold restore_cursor in R. rewrite ES in R. rewrite R. clear R.
     pose proof (wf_cols s W). pose proof (wf_lines s W).
-    (* closed form of the final clamp *)
-    set (sf := set_cur (set_cur (set_mode_f s2 m4) cu4) (sp_cursor sp)).
-    assert (C : ensure_vbounds (ensure_hbounds sf) true =
-                set_cur sf (mkCursor (N.min (cu_x (sp_cursor sp)) (columns s - 1))
-                                     (match margins s with Some (t, b) => N.min (N.max t (cu_y (sp_cursor sp))) b
-                                                       | None => N.min (N.max 0 (cu_y (sp_cursor sp))) (lines s - 1) end)
-                                     (cu_attr (sp_cursor sp)) (cu_hidden (sp_cursor sp)))).
-    { unfold ensure_vbounds, ensure_hbounds, set_y, set_x, cx, cy, sf.
-      cbn [margins set_cur set_mode_f s2 set_charset set_g1 set_g0 set_savepoints cur cu_x cu_y cu_attr cu_hidden columns lines orb].
-      destruct (margins s) as [[t b]|]; unfold set_cur; cbn [cur cu_x cu_y cu_attr cu_hidden columns lines]; f_equal; f_equal; lia. }
-    rewrite C. clear C.
     match goal with |- Aeq _ ?R =>
-      assert (A : R = a_with_cur (a_with_mode (a_with_cs (a_with_sp (abs s) rest) (sp_charset sp) (sp_g0 sp) (sp_g1 sp)) m4)
-                   (mkCursor (N.min (cu_x (sp_cursor sp)) (columns s - 1))
-                             (match margins s with Some (t, b) => N.min (N.max t (cu_y (sp_cursor sp))) b
-                                               | None => N.min (N.max 0 (cu_y (sp_cursor sp))) (lines s - 1) end)
+      assert (A : R = a_with_cur (a_with_mode (a_with_cs (a_with_sp (abs s) rest) (sp_charset sp) (sp_g0 sp) (sp_g1 sp)) (pop_modes sp (mode s)))
+                   (mkCursor (N.min (cu_x (sp_cursor sp)) (columns s - 1)) (vclamp_y s (cu_y (sp_cursor sp)))
                              (cu_attr (sp_cursor sp)) (cu_hidden (sp_cursor sp))))
     end.
-    { unfold a_vclamp. cbn [a_margins a_with_cur a_with_mode a_with_cs a_with_sp abs orb]. fold m4.
+    { unfold a_vclamp, vclamp_y, pop_modes. cbn [a_margins a_with_cur a_with_mode a_with_cs a_with_sp abs orb].
       destruct (margins s) as [[t b]|]; unfold a_y, a_xy, a_with_cur, ax, ay, aattr;
         cbn [a_cur cu_x cu_y cu_attr cu_hidden a_cols a_lines a_with_mode a_with_cs a_with_sp abs]; f_equal; f_equal; lia. }
     rewrite A. clear A.
     constructor; try reflexivity; try apply seteq_refl.
     intros r c Hr Hc. cbn [abs a_grid a_with_cur a_with_mode a_with_cs a_with_sp]. rewrite !cellv_rowv.
     match goal with |- rowv (default_char ?FF) _ _ = _ => assert (D : default_char FF = default_char s) end.
-    { apply default_char_mode. cbn [mode set_cur sf set_mode_f]. unfold m4. apply nmem_scnm_nunion. destruct (sp_origin sp), (sp_wrap sp); reflexivity. }
+    { apply default_char_mode. cbn [mode set_cur set_mode_f]. unfold pop_modes. apply nmem_scnm_nunion. destruct (sp_origin sp), (sp_wrap sp); reflexivity. }
     rewrite D. reflexivity.
 Qed.
 End S.
